@@ -3,16 +3,20 @@
  *
  * G6 (assumed contracts, from the OpenSSL manual pages BN_new(3), BN_bin2bn(3), BN_add(3), BN_mod_mul(3),
  * BN_num_bytes(3), BN_set_word(3), BN_CTX_new(3)):
- *  - a BIGNUM carries a ghost mathematical value v (unsigned 2112-bit vector: every value the DH code can form
- *    is below 2^2049; a MODEL-BOUND assertion guards the capacity) and a sign;
- *  - BN_bin2bn / BN_bn2bin / BN_add / BN_sub / BN_num_bits / BN_set_word are EXACT on v;
+ *  - a BIGNUM is a handle (slot number) into a ghost table; slot k carries a mathematical value v[k] (unsigned
+ *    2112-bit vector: every value the DH code can form is below 2^2049; MODEL-BOUND assertions guard the
+ *    capacity), a sign, a liveness flag and a taint flag;
+ *  - BN_bin2bn / BN_bn2bin / BN_add / BN_sub / BN_num_bits / BN_set_word are EXACT on the value;
  *  - BN_mod_exp / BN_mod_mul are ABSTRACT (G2): call k of the two logs (operation, operand values, modulus
  *    value) and returns a fresh value in [0, m).  The only algebra used about them is on paper:
  *    a^x * a^y == a^(x+y) (mod m);
  *  - every constructor may return NULL, every operation may return 0 (failure);
- *  - C20: a ghost `tainted` bit marks bignums derived from the private or the blinding value (set by BN_bin2bn
- *    when the source bytes are the registered secret buffers, propagated through add/sub/mod_exp/mod_mul);
- *    BN_free() REQUIRES !tainted (plain assertion = obligation of the caller), BN_clear_free() clears.
+ *  - using a BIGNUM after it was released, or releasing it twice, is a failed assertion;
+ *  - C20: the taint flag marks bignums derived from the private or the blinding value (set by BN_bin2bn when
+ *    the source bytes are one of the registered secret buffers, propagated through add/sub/mod_exp/mod_mul);
+ *    BN_free() REQUIRES !tainted (plain assertion = obligation of the caller), BN_clear_free() wipes.
+ * The whole ghost state is one object (g_bn), so that it is a single assigns-clause target; slots are handed
+ * out in order, so every table index is a constant along the success path (cheap for the verifier).
  */
 #ifndef BN_MODEL_H_
 #define BN_MODEL_H_
@@ -22,12 +26,9 @@
 #include <openssl/err.h>
 
 typedef unsigned __CPROVER_bitvector[2112] bn_val_t;
-#define BN_VAL_BYTES 264
 
 struct bignum_st {
-	bn_val_t v;		/* |value| */
-	int neg;		/* value < 0 */
-	int tainted;		/* derived from the private or the blinding value */
+	int id;			/* slot number, fixed at creation */
 };
 struct bignum_ctx {
 	int unused;
@@ -40,22 +41,40 @@ struct bn_call {
 	bn_val_t out;		/* fresh result, < m */
 };
 #define BN_LOGN 3
+#define BN_MAXOBJ 10
 
 struct bn_state {
 	size_t ncalls;			/* abstract operations logged so far */
 	struct bn_call log[BN_LOGN];
-	size_t live;			/* BIGNUMs and BN_CTXs allocated and not yet released */
+	/* the table */
+	int nalloc;			/* slots handed out so far */
+	struct bignum_st obj[BN_MAXOBJ];
+	bn_val_t v[BN_MAXOBJ];		/* |value| */
+	int neg[BN_MAXOBJ];		/* value < 0 */
+	int alive[BN_MAXOBJ];		/* created and not yet released */
+	int tainted[BN_MAXOBJ];		/* derived from the private or the blinding value */
+	struct bignum_ctx ctx;
+	int ctx_alive;
+	/* failure schedule (see bn_sched_fail) */
+	int fail_at;
+	int opcount;			/* constructor / operation / entropy calls that may fail, so far */
+	/* counters */
+	size_t live;			/* BIGNUMs and BN_CTXs created and not yet released */
 	size_t nfail;			/* constructor / operation failures reported to the caller */
 	size_t dirty_free;		/* BN_free() calls on a tainted bignum (C20) */
+	/* the secret byte buffers (C20): the caller's private value, the buffer last filled by crypto_entropy_read */
+	const uint8_t * secret_priv;
+	const uint8_t * secret_rand;
+	/* the entropy stand-in: value of the 32 bytes it delivered last (big-endian), failures, calls */
+	bn_val_t rand_val;
+	size_t rand_fail;
+	size_t rand_calls;
 };
 extern struct bn_state g_bn;
+#define BN_FAIL_ANY	(-2)
+#define BN_FAIL_NONE	(-1)
+int bn_sched_fail(void);
 
-/* the secret byte buffers (C20): the caller's private value and the buffer last filled by crypto_entropy_read */
-extern const uint8_t * g_bn_secret_priv;
-extern const uint8_t * g_bn_secret_rand;
-/* what the entropy stub delivered (value of the 32 blinding bytes, big-endian) and whether it failed */
-extern bn_val_t g_dh_rand_val;
-extern size_t g_dh_rand_fail;
-extern size_t g_dh_rand_calls;
+#define BN_VAL(a)	(g_bn.v[(a)->id])
 
 #endif /* !BN_MODEL_H_ */
